@@ -445,6 +445,8 @@ def main(argv=None):
     for r in results:
         for x in r['inconclusive']:
             print('  INCONCLUSIVE group=%s %s: %s' % (r['group'], x.get('label'), x.get('why')))
+            if a.v and x.get('env') is not None:
+                print('    env=%s replay=%s' % (json.dumps(x.get('env'))[:600], json.dumps(x.get('replay'), default=str)[:1200]))
         if a.v:
             for nt in r['notes']:
                 print('  note group=%s %s' % (r['group'], nt))
